@@ -44,6 +44,12 @@ def G(vseed, stepno, tid, thr):
     return int.from_bytes(h, 'big') < thr
 
 
+def H(key):
+    """used as a guard by one transition and, same text, as the whole action of another one"""
+    import zlib
+    return zlib.crc32(key.encode()) % 3 != 0
+
+
 def K(log, cid, tm, old):
     log.append(('K', cid, tm, old))
     return True
@@ -66,17 +72,24 @@ class CtxCoder(build.Coder):
         return out
 
     def entry(self, ch, n):
-        return '\n'.join(["log.append(('E', %r, time))" % n, 'v = v + 1', 'shared.append(v)', 'nest["l"].append(v)'] + self._sends(ch['states'][n]['sends_entry']))
+        # (the documented setdefault(): a variable that may be defined for the first time after a snapshot was taken)
+        return '\n'.join(["log.append(('E', %r, time))" % n, 'v = v + 1', 'shared.append(v)', 'nest["l"].append(v)',
+                          "setdefault('first_%s', stepno)" % ''.join(c for c in n if c.isalnum())]
+                         + self._sends(ch['states'][n]['sends_entry']))
 
     def exit(self, ch, n):
         return '\n'.join(["log.append(('X', %r, time))" % n, 'v = v + 1'] + self._sends(ch['states'][n]['sends_exit']))
 
     def action(self, ch, t):
+        if t.get('action_text'):
+            return 'H(%r)' % t['action_text']        # the very text that is the guard of another transition
         return '\n'.join(["log.append(('A', %r, event.u if event else None, len(event.data['ref']) if event and 'ref' in event.data "
                           "else None, event.data.get('ref') is shared if event else None, time))" % t['id'], 'v = v + 1',
                           'shared.append(v)'] + self._sends(t['sends']))
 
     def guard(self, ch, t):
+        if t.get('gkey'):
+            return 'H(%r)' % t['gkey']
         g = 'G(%r, stepno, %r, %d)' % (self.vseed, t['id'], self.thr) if t['guard'] else None
         k = int(t['id'][1:])
         if k % 3 == 0:
@@ -131,7 +144,7 @@ class World:
 
     def __init__(self, ch, coder, with_peers):
         self.sc, _ = build.build_api(ch, coder=coder)
-        self.it = Interpreter(self.sc, initial_context=dict(log=[], shared=[], nest={'l': []}, v=0, uid=1000, stepno=0, G=G, K=K))
+        self.it = Interpreter(self.sc, initial_context=dict(log=[], shared=[], nest={'l': []}, v=0, uid=1000, stepno=0, G=G, K=K, H=H))
         self.peer = None
         self.prop = None
         if with_peers:
@@ -295,6 +308,7 @@ def run_case(acc, rnd, tier, case):
     T = TIERS[tier]
     ch = gen_chart(rnd, contracts=True, p_contract=0.45, mode=rnd.choice(('history', 'history', None, 'orth')), p_hist=0.6,
                    p_send=0.5, p_state_send=0.15, delays=(0, 0, 1, 1, 2, 5), allow_inner_history=rnd.random() < 0.5, p_notify=0.2,
+                   p_shared_text=0.4,
                    **T['gen'])
     coder = CtxCoder(repr(rnd.random()), int(rnd.choice((0.5, 0.8, 1.0)) * 2 ** 32))
     with_peers = rnd.random() < 0.5
